@@ -65,13 +65,59 @@ def _load():
 
 def reset_hash():
     _HC[0] = itertools.count(1)
+    _PURE.clear()
 
 
 # ---------------------------------------------------------------------------
 # independent oracles (z3 terms)
 
 def E(x): return sym.lift_real(x)
-def P(nd): return (E(nd.pos[0]), E(nd.pos[1]))
+
+def ratfun(t):
+    """z3 real term -> (numerator, denominator) without division, or None."""
+    if z3.is_rational_value(t) or z3.is_int_value(t) or (z3.is_const(t) and t.decl().kind() == z3.Z3_OP_UNINTERPRETED):
+        return t, None
+    if not z3.is_app(t): return None
+    k = t.decl().kind()
+    ch = [ratfun(x) for x in t.children()]
+    if any(x is None for x in ch): return None
+    def mul(a, b): return a if b is None else (b if a is None else a * b)
+    if k in (z3.Z3_OP_ADD, z3.Z3_OP_SUB):
+        n, d = ch[0]
+        for (n2, d2) in ch[1:]:
+            if d is None and d2 is None: n = n + n2 if k == z3.Z3_OP_ADD else n - n2
+            else:
+                n = mul(n, d2) + mul(n2, d) if k == z3.Z3_OP_ADD else mul(n, d2) - mul(n2, d)
+                d = mul(d, d2)
+        return n, d
+    if k == z3.Z3_OP_UMINUS: return -ch[0][0], ch[0][1]
+    if k == z3.Z3_OP_MUL:
+        n, d = ch[0]
+        for (n2, d2) in ch[1:]: n, d = n * n2, mul(d, d2)
+        return n, d
+    if k == z3.Z3_OP_DIV:
+        (n1, d1), (n2, d2) = ch
+        return mul(n1, d2), mul(d1, n2)
+    if k == z3.Z3_OP_TO_REAL: return t, None
+    return None
+
+_PURE = {}
+
+def pure(c, t):
+    """A coordinate that is a genuine rational function of the symbols (the
+    centroid of a symbolic polygon) is rewritten as ONE quotient of two
+    polynomials in sum-of-monomials form; same value, much cheaper for nlsat
+    than the nested form the code computes."""
+    t = z3.simplify(t)
+    rf = ratfun(t)
+    if rf is None or rf[1] is None: return t
+    num, den = rf
+    if sym.numeral_value(den) is not None: return t
+    return z3.simplify(num, som=True) / z3.simplify(den, som=True)
+
+def P(nd):
+    c = sym.ctx()
+    return (pure(c, E(nd.pos[0])), pure(c, E(nd.pos[1])))
 
 def cross(a, b, p):
     return (b[0] - a[0]) * (p[1] - a[1]) - (b[1] - a[1]) * (p[0] - a[0])
@@ -219,7 +265,7 @@ def same_term(a, b):
 # ---------------------------------------------------------------------------
 # the obligations
 
-COVER_MODE = {'RECT': 'point', 'HANG': 'point', 'CONC': 'point', 'Q1': 'area', 'Q4': 'area'}
+COVER_MODE = {'RECT': 'point', 'HANG': 'point', 'CONC': 'point', 'Q1': 'point', 'Q4': 'point'}
 
 class Obl(object):
     """Collects obligations of one path, records failures with replay data."""
@@ -229,13 +275,27 @@ class Obl(object):
         self.opkey = opkey
         self.steps_replay = []     # filled by the task: functions model -> step dict
         self.count = 0
+        self.timing = {}
+
+    def eq(self, a, b):
+        """a == b; for the concrete-polygon family the repo code computes areas
+        and centroids in rounded float arithmetic, so equality is within 1e-9."""
+        if self.fam['kind'] == 'CONC':
+            tol = z3.RealVal(Fraction(1, 10 ** 9)) * self.fam.get('scale', 100)
+            return z3.And(a - b <= tol, b - a <= tol)
+        return a == b
 
     def prove(self, formula, kind, what, extra=None):
         f = formula.e if isinstance(formula, SBool) else formula
         if not isinstance(f, bool):
             self.distinct.add((kind, z3.simplify(f).hash()))
         self.count += 1
+        t0 = time.time()
         r = self.c.prove(f, '%s: %s' % (kind, what))
+        dt = time.time() - t0
+        k = self.timing.setdefault(kind, [0, 0.0, 0.0])
+        k[0] += 1; k[1] += dt; k[2] = max(k[2], dt)
+        if dt > 2 and os.environ.get('C11_SLOW'): print('   slow %.1fs %s: %s %s' % (dt, kind, what, r))
         if r == 'sat':
             m = self.c.failures[-1]['model']
             data = dict(family=self.fam, values=self.env.witness(m), steps=[fn(m) for fn in self.steps_replay],
@@ -277,17 +337,17 @@ def _check_plan(ob, geo, before, vol_before, promises_connections, check_volume,
     p = (px, py)
     # --- totals (real attributes) -------------------------------------------
     a0 = z3.Sum(*[s['area'] for s in before]) if before else z3.RealVal(0)
-    ob.prove(area_after == a0, 'total-area', 'mulgrid.area equals the sum of the stored areas before')
+    ob.prove(ob.eq(area_after, a0), 'total-area', 'mulgrid.area equals the sum of the stored areas before')
     a0g = z3.Sum(*[shoelace(s['poly']) for s in before])
-    ob.prove(z3.Sum(*[shoelace(s['poly']) for s in after]) == a0g, 'polygon-area',
+    ob.prove(ob.eq(z3.Sum(*[shoelace(s['poly']) for s in after]), a0g), 'polygon-area',
              'sum of shoelace areas of the column polygons is unchanged')
     if check_volume:
-        ob.prove(v1 == vol_before, 'total-volume', 'sum of block_volume over the listed underground blocks (%d blocks)' % nblk)
+        ob.prove(ob.eq(v1, vol_before), 'total-volume', 'sum of block_volume over the listed underground blocks (%d blocks)' % nblk)
         vor = z3.Sum(*[shoelace(s['poly']) * column_heights(geo, s) for s in after if s['surf'] is not None])
-        ob.prove(v1 == vor, 'volume-oracle', 'real block volumes sum to sum(area x rock height under the surface)')
+        ob.prove(ob.eq(v1, vor), 'volume-oracle', 'real block volumes sum to sum(area x rock height under the surface)')
     # --- per column -----------------------------------------------------------
     for s in after:
-        ob.prove(z3.And(s['area'] == shoelace(s['poly']), s['area'] > 0), 'stored-area',
+        ob.prove(z3.And(ob.eq(s['area'], shoelace(s['poly'])), s['area'] > 0), 'stored-area',
                  'column area attribute equals the shoelace area of its nodes and is positive',
                  extra=dict(col=poly_value(s['poly'])))
         ob.prove(weakly_convex(s['poly']), 'convex', 'column is convex and counter-clockwise (oracle lemma)',
@@ -295,10 +355,10 @@ def _check_plan(ob, geo, before, vol_before, promises_connections, check_volume,
     # --- tiling ---------------------------------------------------------------
     ins = [inside(p, s['poly']) for s in after]
     insc = [inside_closed(p, s['poly']) for s in after]
-    for i in range(len(after)):
-        for j in range(i + 1, len(after)):
-            ob.prove(z3.Not(z3.And(ins[i], ins[j])), 'disjoint', 'no point strictly inside two columns',
-                     extra=dict(p=pt_value(p), cols=[poly_value(after[i]['poly']), poly_value(after[j]['poly'])]))
+    for i in range(len(after) - 1):
+        ob.prove(z3.Not(z3.And(ins[i], z3.Or(*ins[i + 1:]))), 'disjoint',
+                 'no point strictly inside column %s and another column' % '-'.join(after[i]['nodes']),
+                 extra=dict(p=pt_value(p), col=poly_value(after[i]['poly'])))
     edges = {}
     for s in after:
         n = len(s['nodes'])
@@ -317,36 +377,48 @@ def _check_plan(ob, geo, before, vol_before, promises_connections, check_volume,
                      'inside-old', 'untouched column keeps its surface')
             continue
         ink = inside(p, s0['poly'])
-        if ob.fam.get('cover', COVER_MODE.get(ob.fam['kind'], 'point')) == 'point':
-            ob.prove(z3.Implies(ink, z3.Or(*insc)), 'cover',
-                     'a point strictly inside old column %d is in the closure of some column' % k,
-                     extra=dict(p=pt_value(p), old=poly_value(s0['poly'])))
-        else:
-            # nonlinear families: z3 does not decide the pointwise cover in useful
-            # time; it decides instead (i) which columns lie inside old k, (ii) that
-            # their areas add up to k's area; with `disjoint` (open interiors do
-            # not meet) this gives the closed cover (measure argument, see notes)
+        mode = ob.fam.get('cover', 'point')
+        if mode == 'point':
+            f = z3.Implies(ink, z3.Or(*insc))
+            r, _m = c.solve(z3.Not(f), timeout_ms=8000)
+            if r in ('sat', 'unsat'):
+                ob.prove(f, 'cover', 'a point strictly inside old column %d is in the closure of some column' % k,
+                         extra=dict(p=pt_value(p), old=poly_value(s0['poly'])))
+            else: mode = 'area'
+        if mode == 'area':
+            # z3 does not decide the pointwise cover in useful time when a node is
+            # a genuine rational function of the symbols (centroid of a symbolic
+            # polygon); it decides instead (i) which columns lie inside old k and
+            # (ii) that their areas add up to k's area; with `disjoint` this gives
+            # the closed cover (measure argument, see notes)
             J = []
             for j, s1 in enumerate(after):
                 r, _m = c.solve(z3.Not(z3.And(*[inside_closed(v, s0['poly']) for v in s1['poly']])))
                 if r == 'unsat': J.append(j)
                 elif r != 'sat': c.unknowns.append(dict(label='cover-area: classification of column %d' % j, info=None))
-            ob.prove(z3.Sum(*[shoelace(after[j]['poly']) for j in J]) == shoelace(s0['poly']) if J else z3.BoolVal(False), 'cover-area',
+            ob.prove(ob.eq(z3.Sum(*[shoelace(after[j]['poly']) for j in J]), shoelace(s0['poly'])) if J else z3.BoolVal(False), 'cover-area',
                      'the %d columns lying inside old column %d have its total area' % (len(J), k),
                      extra=dict(old=poly_value(s0['poly'])))
+        goals = []
         for j, s1 in enumerate(after):
             goal = [inside_closed(v, s0['poly']) for v in s1['poly']]
             if s0['surf'] is not None:
                 goal.append(s1['surf'] == s0['surf'] if s1['surf'] is not None else z3.BoolVal(False))
-            ob.prove(z3.Implies(z3.And(ink, ins[j]), z3.And(*goal)), 'inside-old',
-                     'the column containing a point of old column %d lies inside it and has its surface' % k,
-                     extra=dict(p=pt_value(p), old=poly_value(s0['poly']), col=poly_value(s1['poly'])))
+            goals.append(z3.Implies(ins[j], z3.And(*goal)))
+        ob.prove(z3.Implies(ink, z3.And(*goals)), 'inside-old',
+                 'a column containing a point of old column %d lies inside it and has its surface' % k,
+                 extra=dict(p=pt_value(p), old=poly_value(s0['poly'])))
     # --- conformity -------------------------------------------------------------
     nodes = [(nd.name, P(nd)) for nd in geo.nodelist]
-    for k, (a, b) in edges.items():
-        hang = [strictly_between(m, a, b) for nm, m in nodes if nm not in k]
-        if hang:
-            ob.prove(z3.Not(z3.Or(*hang)), 'conformity', 'no node in the open interior of edge %s' % '-'.join(sorted(k)),
+    nonlinear = False
+    for k, (a, b) in (edges.items() if ob.fam.get('conformity', True) else []):
+        hang = [(nm, strictly_between(m, a, b)) for nm, m in nodes if nm not in k]
+        if hang and nonlinear:
+            for nm, f in hang:
+                ob.prove(z3.Not(f), 'conformity', 'node %s is not in the open interior of edge %s' % (nm, '-'.join(sorted(k))),
+                         extra=dict(edge=poly_value([a, b])))
+        elif hang:
+            ob.prove(z3.Not(z3.Or(*[f for _nm, f in hang])), 'conformity', 'no node in the open interior of edge %s' % '-'.join(sorted(k)),
                      extra=dict(edge=poly_value([a, b])))
     ob.prove(len(edges) > 0 and all(len(set(s['nodes'])) == len(s['nodes']) and len(s['nodes']) >= 3 for s in after),
              'conformity', 'every column has at least 3 distinct nodes')
@@ -401,17 +473,22 @@ def _resolve(step, order, geo):
     """harness-level step (canonical column indices) -> common step (names) and
     a function model -> replay step (witness coordinates)."""
     op = step['op']
-    def nm(i): return order[i].name
+    def pick(i):
+        if i == 'centre': return max(order, key=lambda cl: cl.num_nodes)     # HANG: the many-sided column
+        return order[i]
+    def nm(i): return pick(i).name
     def ref(i):
-        poly = [P(n) for n in order[i].node]
+        poly = [P(n) for n in pick(i).node]
         return poly_value(poly)
+    if op == 'refine' and step['sel'] == 'all': step = dict(step, sel=list(range(len(order))))
+    if op == 'refine' and step['sel'] == 'triangles': step = dict(step, sel=[i for i, cl in enumerate(order) if cl.num_nodes == 3])
     if op == 'refine':
         sel = step['sel']; edge = step.get('edge', [])
         cs = dict(op='refine', cols=[nm(i) for i in sel], bisect=step.get('bisect', False), edge=[nm(i) for i in edge])
         rs = [ref(i) for i in sel]; re_ = [ref(i) for i in edge]
         return cs, lambda m: dict(op='refine', cols=[r(m) for r in rs], bisect=step.get('bisect', False), edge=[r(m) for r in re_])
     if op == 'split':
-        col = order[step['col']]
+        col = pick(step['col'])
         nd = col.node[step['node']]
         cs = dict(op='split', col=col.name, node=nd.name)
         r, pn = ref(step['col']), pt_value(P(nd))
@@ -469,16 +546,33 @@ def task_plan(fam, steps, name):
                 vol0, _ = real_volume(c, geo)
                 r, _m = c.reachable()
                 if r != 'sat': return 'unreachable:%s' % r
-            ret = CC.apply_step(M, geo, cs)
+            try:
+                ret = CC.apply_step(M, geo, cs)
+            except ZeroDivisionError:
+                # column() divides by the new column's area when it computes the
+                # centroid: numpy would carry on with nan/inf, the engine raises
+                ob.prove(False, 'degenerate', 'the edit creates a column of zero area (its centroid divides by the area)')
+                return 'degenerate-column'
+            except Exception as ex:
+                # every shape of the catalogue is a valid request: the edit must not raise
+                ob.prove(False, 'raises-%s' % type(ex).__name__, 'the edit raises %s: %s' % (type(ex).__name__, str(ex)[:100]),
+                         extra=dict(exception=type(ex).__name__))
+                return 'raised'
             if cs['op'] == 'split' and ret is not True: return 'split-refused'
+            if cs['op'] in ('triangulate', 'subdivide', 'decompose_one'):
+                # low-level calls leave the derived name lists to the caller
+                # (decompose_columns does exactly this)
+                geo.setup_block_name_index()
+                geo.setup_block_connection_name_index()
         last = steps[-1]['op']
         st = check_plan(ob, geo, before, vol0, last in CC.PROMISES_CONNECTIONS)
         info.update(st)
+        info['timing'] = {k: [v[0], round(v[1], 2), round(v[2], 2)] for k, v in ob.timing.items()}
         if not samples:
             samples.append(dict(task=name, family=fam, steps=[step_text(s) for s in steps], columns_after=st['columns'],
                                 obligations=ob.count, example='total-area: %s' % str(z3.simplify(E(geo.area)))[:160]))
         return 'checked'
-    res = sym.explore(h, sym.Ctx(timeout_ms=60000), max_paths=400)
+    res = sym.explore(h, sym.Ctx(timeout_ms=60000 if fam.get('centre') == 'centroid' else 20000), max_paths=400, wall_s=600)
     return report.summarize(name, res, failures, samples, extra=dict(distinct_obligations=len(distinct), info=info))
 
 
@@ -560,5 +654,205 @@ def task_layers(fam, layers, factor, name):
         if not samples:
             samples.append(dict(task=name, family=fam, layers=layers, factor=factor, layers_after=len(new), obligations=ob.count))
         return 'checked'
-    res = sym.explore(h, sym.Ctx(timeout_ms=60000), max_paths=3000)
+    res = sym.explore(h, sym.Ctx(timeout_ms=20000), max_paths=3000, wall_s=600)
     return report.summarize(name, res, failures, samples, extra=dict(distinct_obligations=len(distinct)))
+
+
+# ---------------------------------------------------------------------------
+# catalogue of shapes (enumerated) per tier
+
+def _subsets(n):
+    return [[i for i in range(n) if m >> i & 1] for m in range(1, 2 ** n)]
+
+R22 = dict(kind='RECT', nx=2, ny=2, nz=2, surf='mixed')
+R33 = dict(kind='RECT', nx=3, ny=3, nz=2, surf='mixed')
+R33_SHAPES = {'single-centre': [4], 'single-corner': [0], 'strip': [3, 4, 5], 'L': [0, 3, 6, 7, 8], 'ring': [0, 1, 2, 3, 5, 6, 7, 8],
+              'boundary-pair': [1, 2], 'all': list(range(9)), 'all-but-one': [0, 1, 2, 3, 4, 5, 6, 7]}
+Q1 = dict(kind='Q1', nz=2, surf='in1')
+Q4 = dict(kind='Q4', nz=2, surf='mixed')
+
+HANG_SHAPES = [  # hanging nodes per side (bottom, right, top, left) of the centre column
+    [1, 0, 0, 0], [0, 1, 0, 0], [0, 0, 1, 0], [0, 0, 0, 1],                 # (5,1)
+    [1, 0, 1, 0], [0, 1, 0, 1],                                             # (6,2) opposite
+    [1, 1, 0, 0], [0, 1, 1, 0], [0, 0, 1, 1], [1, 0, 0, 1],                 # (6,2) adjacent
+    [2, 0, 0, 0], [0, 0, 2, 0],                                             # (6,2) same side
+    [1, 1, 1, 0], [0, 1, 1, 1], [1, 0, 1, 1], [1, 1, 0, 1],                 # (7,3) one per side
+    [2, 1, 0, 0], [2, 0, 1, 0], [3, 0, 0, 0], [1, 2, 0, 0], [0, 1, 0, 2],   # (7,3) other distributions
+    [1, 1, 1, 1],                                                           # (8,4) one per side
+    [2, 1, 1, 0], [2, 2, 0, 0], [2, 0, 2, 0], [3, 1, 0, 0], [4, 0, 0, 0],   # (8,4) other distributions
+    [2, 1, 1, 1], [2, 2, 1, 1],                                             # 9, 10 nodes
+]
+HANG_QUICK = [[1, 0, 0, 0], [0, 0, 0, 1], [1, 0, 1, 0], [1, 1, 0, 0], [2, 0, 0, 0], [1, 1, 1, 0], [2, 0, 1, 0], [2, 1, 0, 0],
+              [1, 1, 1, 1], [2, 1, 1, 0]]
+
+CONC_SHAPES = {
+    'pentagon': [[(0, 0), (4, 0), (6, 3), (3, 6), (-1, 3)]],
+    'hexagon': [[(0, 0), (4, 0), (6, 3), (4, 6), (0, 6), (-2, 3)]],
+    'heptagon': [[(0, 0), (4, 0), (7, 2), (8, 5), (4, 8), (0, 7), (-2, 3)]],
+    'octagon': [[(0, 0), (3, 0), (5, 2), (5, 5), (3, 7), (0, 7), (-2, 5), (-2, 2)]],
+    'nonagon': [[(0, 0), (3, 0), (5, 1), (6, 3), (5, 6), (3, 8), (0, 8), (-2, 6), (-3, 3)]],
+    'triangle-3-straight': [[(0, 0), (4, 0), (8, 0), (6, 3), (4, 6), (2, 3)]],
+    'pentagon-1-straight-oblique': [[(0, 0), (6, 0), (6, 4), (3, 7), (0, 4), ], ],
+    'pentagon+quad': [[(0, 0), (4, 0), (6, 3), (3, 6), (-1, 3)], [(4, 0), (8, 0), (9, 3), (6, 3)]],
+}
+
+
+def catalogue(tier):
+    T = []
+    def plan(fam, steps, name): T.append((task_plan, dict(fam=fam, steps=steps, name=name)))
+    def lay(fam, layers, factor, name): T.append((task_layers, dict(fam=fam, layers=layers, factor=factor, name=name)))
+    thorough = tier == 'thorough'
+    # --- refine on RECT(2x2): every subset -------------------------------------
+    for sel in _subsets(4):
+        tag = ''.join(map(str, sel))
+        plan(R22, [dict(op='refine', sel=sel)], 'R2x2/refine/%s' % tag)
+        for b in ('x', 'y'):
+            if thorough or sel in ([0], [3], [0, 3], [0, 1, 2, 3]):
+                plan(R22, [dict(op='refine', sel=sel, bisect=b)], 'R2x2/bisect-%s/%s' % (b, tag))
+        if thorough or sel in ([0], [2], [1, 2]):
+            plan(R22, [dict(op='refine', sel=sel, bisect=True)], 'R2x2/bisect-longest/%s' % tag)
+    # bisected edge columns
+    plan(R22, [dict(op='refine', sel=[0], bisect='y', edge=[1, 3])], 'R2x2/bisect-y+edge/0|13')
+    plan(R22, [dict(op='refine', sel=[0, 1], edge=[2, 3])], 'R2x2/refine+edge/01|23')
+    if thorough:
+        plan(R22, [dict(op='refine', sel=[0], bisect='x', edge=[2, 3])], 'R2x2/bisect-x+edge/0|23')
+        plan(R22, [dict(op='refine', sel=[3], edge=[1, 2])], 'R2x2/refine+edge/3|12')
+        plan(R22, [dict(op='refine', sel=[1], bisect=True, edge=[0, 2])], 'R2x2/bisect-longest+edge/1|02')
+    # other surface patterns / atmosphere types / conventions
+    for k, fam in enumerate([dict(R22, surf='mixed2'), dict(R22, surf='default', atm=0), dict(R22, surf='in1', atm=1, conv=1),
+                             dict(R22, surf='deep', conv=2), dict(R22, nz=1, surf='mixed'), dict(R22, nz=3, surf='mixed2', conv=3)]):
+        if thorough or k < 3:
+            plan(fam, [dict(op='refine', sel=[0, 3])], 'R2x2v%d/refine/03' % k)
+    # --- refine on RECT(3x3) --------------------------------------------------------
+    if thorough:
+        sels = {}
+        for nm, s in R33_SHAPES.items(): sels[nm] = s
+        for i in range(9): sels.setdefault('single-%d' % i, [i])
+        for r in range(3):
+            sels['row-%d' % r] = [3 * r, 3 * r + 1, 3 * r + 2]; sels['col-%d' % r] = [r, r + 3, r + 6]
+        for r in range(2):
+            sels['rows-%d%d' % (r, r + 1)] = list(range(3 * r, 3 * r + 6)); sels['cols-%d%d' % (r, r + 1)] = [c + 3 * j for j in range(3) for c in (r, r + 1)]
+        for nm, s in [('diag', [0, 4, 8]), ('anti-diag', [2, 4, 6]), ('corners', [0, 2, 6, 8]), ('plus', [1, 3, 4, 5, 7]), ('checker', [0, 2, 4, 6, 8]),
+                      ('edges-mid', [1, 3, 5, 7]), ('T', [0, 1, 2, 4, 7]), ('U', [0, 2, 3, 5, 6, 7, 8]), ('block', [0, 1, 3, 4]), ('block2', [4, 5, 7, 8]),
+                      ('pair-v', [4, 7]), ('pair-h', [3, 4]), ('two-apart', [0, 2]), ('knight', [0, 5])]:
+            sels[nm] = s
+    else:
+        sels = {k: R33_SHAPES[k] for k in ('single-centre', 'strip', 'L', 'ring', 'all')}
+    for nm, s in sels.items():
+        plan(R33, [dict(op='refine', sel=s)], 'R3x3/refine/%s' % nm)
+    for nm in (list(R33_SHAPES) if thorough else ['single-centre', 'L']):
+        for b in ('x', 'y'):
+            plan(R33, [dict(op='refine', sel=R33_SHAPES[nm], bisect=b)], 'R3x3/bisect-%s/%s' % (b, nm))
+    for nm in (['single-centre', 'single-corner', 'boundary-pair', 'strip'] if thorough else ['single-centre']):
+        plan(R33, [dict(op='refine', sel=R33_SHAPES[nm], bisect=True)], 'R3x3/bisect-longest/%s' % nm)
+    plan(R33, [dict(op='refine', sel=[0, 1, 2], edge=[3, 4, 5])], 'R3x3/refine+edge/row0|row1')
+    if thorough:
+        plan(R33, [dict(op='refine', sel=[4], edge=[1, 3, 5, 7])], 'R3x3/refine+edge/4|1357')
+        plan(R33, [dict(op='refine', sel=[0, 3, 6], bisect='x', edge=[1, 4, 7])], 'R3x3/bisect-x+edge/col0|col1')
+    # --- earlier refinements (triangles present) -------------------------------------
+    plan(R22, [dict(op='refine', sel=[0]), dict(op='refine', sel=[2, 3])], 'R2x2/refine-after-refine/0>23')
+    plan(R22, [dict(op='refine', sel=[0]), dict(op='refine', sel='triangles')], 'R2x2/refine-after-refine/0>triangles')
+    if thorough:
+        plan(R22, [dict(op='refine', sel=[0]), dict(op='refine', sel='all')], 'R2x2/refine-after-refine/0>all')
+        for i in range(11):
+            plan(R22, [dict(op='refine', sel=[0]), dict(op='refine', sel=[i])], 'R2x2/refine-after-refine/0>%d' % i)
+        plan(R22, [dict(op='refine', sel=[0]), dict(op='refine', sel='triangles', bisect=True)], 'R2x2/bisect-after-refine/0>triangles')
+        plan(R22, [dict(op='refine', sel=[0, 3]), dict(op='refine', sel='all', bisect='x')], 'R2x2/bisect-x-after-refine/03>all')
+    # --- split_column, triangulate_column ----------------------------------------------
+    for col in ((0, 1, 2, 3) if thorough else (0, 3)):
+        for nd in range(4):
+            if thorough or nd in (0, 1):
+                plan(R22, [dict(op='split', col=col, node=nd)], 'R2x2/split/c%dn%d' % (col, nd))
+    for col in ((0, 1, 2, 3) if thorough else (1,)):
+        plan(R22, [dict(op='triangulate', col=col)], 'R2x2/triangulate/c%d' % col)
+    plan(R22, [dict(op='refine', sel=[0]), dict(op='triangulate', col=1)], 'R2x2/triangulate-after-refine/0>1')
+    # --- QUADFAM ---------------------------------------------------------------------------
+    for b in (False, 'x', 'y', True):
+        plan(Q1, [dict(op='refine', sel=[0], bisect=b)], 'Q1/refine/bisect=%s' % b)
+    for nd in range(4):
+        plan(Q1, [dict(op='split', col=0, node=nd)], 'Q1/split/n%d' % nd)
+    plan(Q1, [dict(op='triangulate', col=0)], 'Q1/triangulate')
+    for sel in (_subsets(4) if thorough else [[0], [0, 3], [0, 1, 2, 3]]):
+        plan(Q4, [dict(op='refine', sel=sel)], 'Q4/refine/%s' % ''.join(map(str, sel)))
+    for sel in ([[0], [1, 2], [0, 1, 2, 3]] if thorough else [[1]]):
+        for b in (('x', 'y', True) if thorough else (True,)):
+            plan(Q4, [dict(op='refine', sel=sel, bisect=b)], 'Q4/bisect-%s/%s' % (b, ''.join(map(str, sel))))
+    for col in ((0, 1, 2, 3) if thorough else (2,)):
+        for nd in ((0, 1, 2, 3) if thorough else (0, 3)):
+            plan(Q4, [dict(op='split', col=col, node=nd)], 'Q4/split/c%dn%d' % (col, nd))
+        plan(Q4, [dict(op='triangulate', col=col)], 'Q4/triangulate/c%d' % col)
+    if thorough:
+        plan(dict(Q1, centre='centroid', cover='area', conformity=False), [dict(op='refine', sel=[0])], 'Q1centroid/refine')
+        plan(dict(Q1, centre='centroid', cover='area', conformity=False), [dict(op='triangulate', col=0)], 'Q1centroid/triangulate')
+    # --- decompose_columns ------------------------------------------------------------------
+    for hang in (HANG_SHAPES if thorough else HANG_QUICK):
+        fam = dict(kind='HANG', nz=2, hang=hang, surf='mixed')
+        plan(fam, [dict(op='decompose', sel='all')], 'HANG%s/decompose-all' % ''.join(map(str, hang)))
+    for hang in ([[1, 0, 0, 0], [1, 1, 1, 1], [1, 0, 1, 0]] if thorough else [[1, 1, 0, 0]]):
+        fam = dict(kind='HANG', nz=2, hang=hang, surf='mixed')
+        plan(fam, [dict(op='decompose', sel=['centre'])], 'HANG%s/decompose-centre' % ''.join(map(str, hang)))
+        plan(fam, [dict(op='triangulate', col='centre')], 'HANG%s/triangulate-centre' % ''.join(map(str, hang)))
+    for nm, polys in CONC_SHAPES.items():
+        if thorough or nm in ('pentagon', 'octagon', 'pentagon+quad'):
+            fam = dict(kind='CONC', nz=2, polys=polys, surf='in1')
+            plan(fam, [dict(op='decompose', sel='all')], 'CONC-%s/decompose-all' % nm)
+    # --- refine_layers ----------------------------------------------------------------------------
+    L11 = dict(kind='RECT', nx=1, ny=1, nz=3, surf='free')
+    L21 = dict(kind='RECT', nx=2, ny=1, nz=3, surf='free')
+    combos = []
+    for layers in [[]] + _subsets(3):
+        for f in (2, 3, 4):
+            combos.append(([i + 1 for i in layers], f))
+    if not thorough: combos = [c for c in combos if c in (([], 2), ([1], 3), ([2, 3], 2), ([1, 3], 4), ([2], 2), ([1, 2, 3], 3))]
+    for layers, f in combos:
+        lay(L11, layers, f, 'R1x1x3/refine_layers/%s/x%d' % (''.join(map(str, layers)) or 'all', f))
+    if thorough:
+        for layers, f in (([2], 2), ([1, 3], 3), ([], 2)):
+            lay(L21, layers, f, 'R2x1x3/refine_layers/%s/x%d' % (''.join(map(str, layers)) or 'all', f))
+    lay(dict(kind='RECT', nx=1, ny=1, nz=2, surf='free', atm=0), [1], 2, 'R1x1x2atm0/refine_layers/1/x2')
+    if thorough:
+        lay(dict(kind='RECT', nx=1, ny=1, nz=2, surf='free', atm=1, conv=1), [], 3, 'R1x1x2atm1/refine_layers/all/x3')
+        lay(dict(kind='RECT', nx=2, ny=2, nz=2, surf='mixed', conv=2), [2], 2, 'R2x2x2/refine_layers/2/x2')
+    return T
+
+
+RULE = ('one obligation = one z3 query "path condition AND NOT clause" for one clause (total-area, total-volume, stored-area, convex, '
+        'disjoint pair, cover of one old column, inside-old for one (old, new) pair, conformity of one edge, layer clauses) on one path of '
+        'one (family, edit) shape; distinct = distinct non-constant formulas by (clause kind, z3 AST hash)')
+
+
+def run(tier, seed, rep):
+    _load()
+    tasks = catalogue(tier)
+    if seed:
+        import random
+        random.Random(seed).shuffle(tasks)
+    # wall-clock guard: a broken tree can make single queries time out by the hundred
+    results = report.run_tasks(tasks, wall_s=1500 if tier == 'thorough' else 420)
+    rep.add_results(results)
+    for r in results:
+        if not r.get('error') and not (r.get('outcomes', {}).get('checked') or r.get('outcomes', {}).get('degenerate-column') or r.get('outcomes', {}).get('raised')):
+            rep.harness_error('%s: no path reached the obligations (outcomes %r)' % (r['name'], r.get('outcomes')))
+    rep.bounds += [
+        'RECT(2x2): symbolic spacings > 0, symbolic origin, 1-3 symbolic layer thicknesses > 0, symbolic per-column surfaces placed by an enumerated pattern '
+        '(above the top, at the top, strictly inside a layer, at a layer boundary, below the bottom); all 15 column subsets, full refinement and x / y / longest-side bisection; 3-5 bisected-edge-column configurations',
+        'RECT(3x3): %s selections (quick: 5 named shapes: single, strip, L, ring with hole, all; thorough: those plus every single column, rows, columns, 14 further patterns) - NOT all 511 subsets' % ('46' if tier == 'thorough' else '5'),
+        'QUADFAM: Q1 = quadrilateral (0,0)(1,0)(a,b)(0,1) with a,b>0, a+b>1 and its centre specified at (1/2,1/2); Q4 = 2x2 unit squares whose shared node is moved to (a,b), |a-1|+|b-1|<1, centres left at the cell centres; symbolic origin',
+        'earlier refinements: RECT(2x2) refined at column 0, then refined again (each single column of the result, all, all triangles)',
+        'decompose_columns: rectangular centre column with 1-6 hanging (straight) nodes distributed over its sides at symbolic positions, lined with small symbolic neighbour columns (%d distributions); %d concrete convex 5..9-gons with symbolic surfaces/layers/query point' % (len(HANG_SHAPES if tier == 'thorough' else HANG_QUICK), len(CONC_SHAPES) if tier == 'thorough' else 3),
+        'refine_layers: RECT(1x1) (and 2x1, 2x2 in the thorough tier) with 2-3 symbolic layers, symbolic surfaces anywhere (the position among the new layer boundaries is forked), every layer subset, factor 2..4',
+        'query point p and elevation z: unconstrained reals']
+    rep.outside += ['all 511 column subsets of RECT(3x3); meshes larger than 3x3',
+                    'refinement of the shipped irregular geometries g1..g7',
+                    'columns whose centre is the centroid of a symbolic non-rectangular polygon: only area/volume/disjoint/cover-by-area/inside-old are decided there (thorough tier, Q1centroid); conformity of those is outside (z3 nlsat does not finish)',
+                    'decomposition of columns with 5..8 sides and symbolic non-axis-aligned angles (decompose_column calls asin on them): only rectilinear symbolic shapes and concrete polygons',
+                    'IEEE rounding (exact real arithmetic); concrete polygons use integer coordinates and their float centroids are taken as exact rationals']
+    rep.assumptions += [
+        'set iteration order of node/column/connection objects: CPython hashes them by address; the harness replaces __hash__ by a first-use counter so that re-executions are deterministic (identity equality untouched); VERIF_SEED changes the order',
+        'after a direct triangulate_column call the harness calls setup_block_name_index/setup_block_connection_name_index (as decompose_columns does) before reading block volumes',
+        'cover is decided in the closed form "p strictly inside old column k => p in the closure of some column"; together with the `convex` lemma and `disjoint` this gives: p off every edge => p strictly inside exactly one column',
+        'Q1centroid only: closed cover is derived from disjoint + inside-old + equal area (finitely many convex polygons with disjoint interiors inside K whose areas add up to area(K) cover K)',
+        'surface exactly at a layer boundary and below the lowest layer are included as patterns; every column of a pattern gets its own symbol']
+    rep.trusted += ['half-plane containment, shoelace area, open-segment test written in harness/C11.py (independent of geometry.py)']
+    rep.process_failures()
+    return rep.finish(rule=RULE)
